@@ -17,6 +17,7 @@ mod c11;
 mod c13;
 mod c14;
 mod c15;
+mod c16;
 mod c18;
 mod frames;
 
@@ -39,6 +40,7 @@ fn table(id: &str) -> Option<(RunFn, ReplayFn)> {
         "C13" => (c13::run, c13::replay),
         "C14" => (c14::run, c14::replay),
         "C15" => (c15::run, c15::replay),
+        "C16" => (c16::run, c16::replay),
         "C18" => (c18::run, c18::replay),
         _ => return None,
     })
@@ -59,6 +61,10 @@ fn main() {
         std::process::exit(2);
     }
     let id = args[1].as_str();
+    if id == "serial" {
+        c16::serial_main(&args[2..]);
+        return;
+    }
     if id == "dump" {
         // vcheck dump <hex>: show what the decoder under test makes of a frame
         let f = hex::decode(&args[2]).expect("hex");
